@@ -223,6 +223,24 @@ ModCases == {
   Case("import-in-function", <<FnDecl("ld", <<>>, WInt, <<Set("m", ImportE("m5.sl", <<Set("a", H(7))>>)), Ret(Field(V("m"), "a"))>>), Set("a", H(1)),
                                TupE(<<CallE(V("ld"), <<>>), V("a")>>)>>, TupV(<<IntV(7), IntV(1)>>)),
   Case("import-nested", <<Set("m", ImportE("m6.sl", <<Set("inner", ImportE("m7.sl", <<Set("q", H(8))>>)), Set("p", Field(V("inner"), "q"))>>)), Field(V("m"), "p")>>, IntV(8)),
+  \* the SAME file (same path, same text) imported from two scopes that bind its free name differently: each import
+\* resolves, folds and types the text in the scope of ITS import statement
+  Case("import-same-file-two-scopes-const",
+       <<Set("x", I(5)), Set("m1", ImportE("m8.sl", <<Set("y", Bin("*", V("x"), I(2)))>>)),
+         Set("x", I(7)), Set("m2", ImportE("m8.sl", <<Set("y", Bin("*", V("x"), I(2)))>>)),
+         TupE(<<Field(V("m1"), "y"), Field(V("m2"), "y")>>)>>, TupV(<<IntV(10), IntV(14)>>)),
+  Case("import-same-file-two-scopes-hidden",
+       <<Set("x", H(5)), Set("m1", ImportE("m9.sl", <<Set("y", Bin("*", V("x"), I(2)))>>)),
+         Set("x", H(7)), Set("m2", ImportE("m9.sl", <<Set("y", Bin("*", V("x"), I(2)))>>)),
+         TupE(<<Field(V("m1"), "y"), Field(V("m2"), "y")>>)>>, TupV(<<IntV(10), IntV(14)>>)),
+  Case("import-same-file-two-functions",
+       <<FnDecl("la", <<P("x", WInt)>>, WInt, <<Set("m", ImportE("m10.sl", <<Set("y", Bin("+", V("x"), I(1)))>>)), Ret(Field(V("m"), "y"))>>),
+         FnDecl("lb", <<>>, WInt, <<Set("x", I(40)), Set("m", ImportE("m10.sl", <<Set("y", Bin("+", V("x"), I(1)))>>)), Ret(Field(V("m"), "y"))>>),
+         TupE(<<CallE(V("la"), <<H(1)>>), CallE(V("lb"), <<>>), CallE(V("la"), <<H(2)>>)>>)>>, T3(2, 41, 3)),
+  \* two PROGRAMS that import one shared file (the harness runs the cases of a suite in one process)
+  Case("import-shared-file-A", <<Set("x", I(5)), Set("m", ImportE("shared.sl", <<Set("y", Bin("*", V("x"), I(2)))>>)), Field(V("m"), "y")>>, IntV(10)),
+  Case("import-shared-file-B", <<Set("x", I(7)), Set("m", ImportE("shared.sl", <<Set("y", Bin("*", V("x"), I(2)))>>)), Field(V("m"), "y")>>, IntV(14)),
+  Case("import-shared-file-C", <<Set("x", H(9)), Set("m", ImportE("shared.sl", <<Set("y", Bin("*", V("x"), I(2)))>>)), Field(V("m"), "y")>>, IntV(18)),
   Case("mod-destruct", <<Set("m", ModE(<<Destruct(<<"p", "q">>, TupE(<<H(1), H(2)>>))>>)), V("m")>>, SV("p" :> IntV(1) @@ "q" :> IntV(2)))
 }
 
